@@ -123,6 +123,8 @@ class Spelling(object):
         self.semicolon = False
         self.inner_space = ' '       # spaces inside clauses around keywords: ' ' or '  '
         self.asc_explicit = False
+        self.list_sep = ', '         # separator inside select / assignment / key lists
+        self.assign_eq = ' = '       # the assignment sign in UPDATE
         self.__dict__.update(kw)
 
     def kw(self, word):
@@ -243,18 +245,18 @@ def render(q, lang='py', sp=None, join_table_id='b'):
         if q.get('except_cols') is not None:
             head += S + '*'
         else:
-            head += S + ', '.join(render_expr(it, lang, sp) for it in q['items'])
+            head += S + sp.list_sep.join(render_expr(it, lang, sp) for it in q['items'])
         if top is not None and style == 'LIMIT':
             clauses.append(('limit', sp.kw('LIMIT') + S + str(top[1])))
         if q.get('except_cols') is not None:
-            clauses.append(('except', sp.kw('EXCEPT') + S + ', '.join(render_expr(c, lang, sp) for c in q['except_cols'])))
+            clauses.append(('except', sp.kw('EXCEPT') + S + sp.list_sep.join(render_expr(c, lang, sp) for c in q['except_cols'])))
     else:
         head = sp.kw('UPDATE')
         if sp.from_a:
             head += S + 'a' + S + sp.kw('SET')
         elif sp.update_set:
             head += S + sp.kw('SET')
-        head += S + ', '.join('%s = %s' % (render_expr(t, lang, sp), render_expr(r, lang, sp)) for t, r in q['assign'])
+        head += S + sp.list_sep.join('%s%s%s' % (render_expr(t, lang, sp), sp.assign_eq, render_expr(r, lang, sp)) for t, r in q['assign'])
     if q['kind'] == 'select' and sp.from_a:
         clauses.insert(0, ('from', sp.kw('FROM') + S + 'a'))
     j = q.get('join')
@@ -271,10 +273,10 @@ def render(q, lang='py', sp=None, join_table_id='b'):
     if q.get('where') is not None:
         clauses.append(('where', sp.kw('WHERE') + S + render_expr(q['where'], lang, sp)))
     if q.get('group') is not None:
-        clauses.append(('group', sp.kw('GROUP BY').replace(' ', S) + S + ', '.join(render_expr(g, lang, sp) for g in q['group'])))
+        clauses.append(('group', sp.kw('GROUP BY').replace(' ', S) + S + sp.list_sep.join(render_expr(g, lang, sp) for g in q['group'])))
     o = q.get('order')
     if o is not None:
-        t = sp.kw('ORDER BY').replace(' ', S) + S + ', '.join(render_expr(g, lang, sp) for g in o['keys'])
+        t = sp.kw('ORDER BY').replace(' ', S) + S + sp.list_sep.join(render_expr(g, lang, sp) for g in o['keys'])
         if o.get('desc'):
             t += S + sp.kw('DESC')
         elif o.get('asc_explicit') or sp.asc_explicit:
